@@ -295,6 +295,25 @@ FOCI_QUICK = [
 FOCI_THOROUGH = FOCI_QUICK + [("serial", "name"), ("res_seq", "x"), ("y", "z"), ("ins", "x"), ("chain",), ("radius",), ("res_name", "chain", "res_seq")]
 
 
+def h_chain_flow(eng, ff, pka, ligand):
+    """whatever path the real driver takes (--clean, --assign-only, force-field run, ...), the chain column of the
+    PQR lines follows --keep-chain: every call that renders PQR atom lines receives chainflag == args.keep_chain"""
+    from . import flow
+
+    o = flow.symbolic_options(eng, fixed=dict(ff=ff, pka=pka, ligand=ligand), formatting=dict(ffout=0, pdb_output=0, apbs_input=0))
+    eng.assume(And(o["ph"] >= 0, o["ph"] <= 14))
+    w = flow.World(eng, "1", False, {}, [])
+    err = flow.run_driver(w, o)
+    if err is not None:
+        eng.check(True, "loud-failure-tolerated", note=type(err).__name__)
+        return
+    calls = [(name, a) for name, a, k in w.raw if name == "atom.get_pqr_string" or (name == "io.print_biomolecule_atoms" and not a[2])]
+    eng.check(len(calls) > 0, "pqr-lines-rendered")
+    for name, a in calls:
+        flag = a[1]
+        eng.check(core.Iff(flag, o["keep_chain"]), "chain-column-follows-keep-chain", note=f"{name} called with chainflag={flag} while --keep-chain is {o['keep_chain']} (options: clean={o['clean']}, assign_only={o['assign_only']})")
+
+
 def obligations(tier):
     obs = []
     foci = FOCI_QUICK if tier == "quick" else FOCI_THOROUGH
@@ -314,6 +333,8 @@ def obligations(tier):
         for ws in (False, True):
             for kc in (False, True):
                 obs.append(Obligation(f"atom-list-n{n}-{'ws' if ws else 'fixed'}-{'kc' if kc else 'nokc'}", h_atom_list, dict(n=n, ws=ws, kc=kc), group="atom-list", time_cap=1200))
+    for ff, pka, lig in ((0, 0, 0),) if tier == "quick" else ((0, 0, 0), (1, 1, 0), (2, 0, 1)):
+        obs.append(Obligation(f"chain-flow-ff{ff}-pka{pka}-lig{lig}", h_chain_flow, dict(ff=ff, pka=pka, ligand=lig), group="flow", time_cap=1500, max_paths=200000))
     return obs
 
 
